@@ -141,4 +141,17 @@ theorem add_eq_spec {a b : Int} (ha : InInt a) (hb : InInt b) :
   repeat' split
   all_goals first | omega | (simp only [Option.some.injEq] <;> omega)
 
+/-- The generated helpers never panic, for arbitrary integers (the division in the multiplication is
+    only reached with a non-zero divisor). -/
+theorem mul_isSome (a b : Int) : (checkedNonNegativeMultiply a b).isSome = true := by
+  unfold checkedNonNegativeMultiply
+  dsimp only
+  repeat' split
+  all_goals first | rfl | (exfalso; omega)
+
+theorem add_isSome (a b : Int) : (checkedNonNegativeAdd a b).isSome = true := by
+  unfold checkedNonNegativeAdd
+  repeat' split
+  all_goals first | rfl | (exfalso; omega)
+
 end ApiFu.C14
